@@ -13,5 +13,5 @@ CONSTANTS
   ImplBug = "none"
   ObjDefect = "none"
 SPECIFICATION MCSpec
-INVARIANTS Acceptable Coherent FlagSound CursorSound Effect
+INVARIANTS Acceptable Coherent FlagSound CursorSound CacheSound Effect
 CHECK_DEADLOCK FALSE
